@@ -142,17 +142,23 @@ theorem createReturn_depth {cfg : Cfg} {w w' : World} {cp : Journal.Checkpoint} 
           let w ← journalOps.revert w cp
           Except.ok (x, w) : R (Interp.ChildResult × World))
         else do
-          let js ← ofOpt "set_code" (Journal.setCode (journalOps.commit w).js a hash)
-          Except.ok (y, ({ journalOps.commit w with js := js } : World).addCode hash out)) = .ok (r', w') →
+          let w2 ← journalOps.setCode (journalOps.commit w) a hash
+          Except.ok (y, w2.addCode hash out)) = .ok (r', w') →
       w'.js.depth = decU64 w.js.depth := by
     intro c _ x hash out y h
     split at h
     · obtain ⟨w1, h1, h⟩ := bind_ok h
       simp only [Except.ok.injEq, Prod.mk.injEq] at h
       rw [← h.2]; exact w_revert_depth h1
-    · obtain ⟨js, h1, h⟩ := bind_ok h
+    · obtain ⟨w2, h1, h⟩ := bind_ok h
+      -- `journalOps.setCode` (the `set_code_with_hash` of `create_return`, a field of `CpOps` since the refinement proof)
+      change (do
+        let js ← ofOpt "set_code" (Journal.setCode (journalOps.commit w).js a hash)
+        pure ({ journalOps.commit w with js := js } : World) : R World) = .ok w2 at h1
+      obtain ⟨js, h1, h2⟩ := bind_ok h1
+      simp only [pure, Except.pure, Except.ok.injEq] at h2
       simp only [Except.ok.injEq, Prod.mk.injEq] at h
-      rw [← h.2, addCode_js]
+      rw [← h.2, addCode_js, ← h2]
       show js.depth = _
       rw [Proofs.Frame.setCode_depth (Proofs.EvmHost.ofOpt_ok h1)]
       rfl
